@@ -137,6 +137,10 @@ fn run_scheduled(sc: &Scenario, rng: &mut rand::rngs::StdRng) -> RunOut {
                 return t;
             }
             if let (Some(sch), false) = (&sched, diverged) {
+                // yield points that are not specification steps: when replaying a TLC schedule they are granted at once
+                if let Some((&t, _)) = w.iter().find(|(_, (s, _))| s == "push.installed.pre") {
+                    return t;
+                }
                 while pos < sch.len() && site_of_pc(&sch[pos].1).is_none() {
                     pos += 1;
                 }
